@@ -2,6 +2,7 @@ import CE.Rules.Machine
 import CE.Rules.Table
 import CE.Cbe.RoundTrip
 import CE.Cbe.Prefix
+import CE.Cbe.Cut
 import CE.Props.C10
 /-
   C09 — truncated documents are rejected and partial results are prefixes.
@@ -17,8 +18,16 @@ import CE.Props.C10
     was delivered).  Holds for every configuration, every stream, every cut.
   * `posInt_cut_rejected` / `negInt_cut_rejected` — inside a token: every strict prefix of an
     encoded integer (any width) makes the CBE token decoder fail with end-of-file, delivering
-    no event (`_partial`: the other token kinds are exercised by the CBE.DEC correspondence
-    at random cuts and by the oracle at every cut).
+    no event.
+  * `cut_inside_token_fails` — inside ANY token the encoder writes for the structural fragment
+    (CE/Cbe/StreamRoundTrip.lean: scalars of every kind, identifiers, strings, typed arrays) and
+    `cut_inside_chunked_array_fails` — inside an array sent in chunks (header, chunk lengths or
+    data): every non-empty strict prefix of the token's bytes fails with "input ended", having
+    delivered a prefix of the token's events; it is never read as a shorter token.  Both follow
+    from one general fact (CE/Cbe/Cut.lean `token_cut_fails`): a byte string that is read back as
+    one token whatever follows it has no strict prefix that decodes - the decoder reads a prefix
+    code (`ext_decodeOne`).  Times, bit arrays and remote references: CBE.DEC correspondence at
+    random cuts and the oracle at every cut.
   * `cbe_truncation_delivers_a_prefix` — every cut of every byte string, inside a token or
     between tokens, every event kind the decoder model covers: the events the CBE decoder has
     delivered when the input ends after k bytes (not counting the end-of-document it adds when
@@ -297,5 +306,24 @@ theorem cbe_truncation_fails_only_with_end_of_input (doc : Bytes) (k : Nat) (h :
     head, the list and the string's begin and chunk events -/
 example : CE.Cbe.delivered (CE.Cbe.decode (([0x81, 0, 0x9a, 0x90, 0x06, 0x61, 0x62, 0x63, 0x9b] : Bytes).take 7))
     = [.beginDoc, .version 0, .list, .arrayBegin .string, .arrayChunk 3 false] := by decide +kernel
+
+/-- a cut inside the encoding of any structural event fails with "input ended" -/
+theorem cut_inside_token_fails (st : Cbe.EncSt) (e : Ev) (hs : Cbe.simple e = true) (bs : Bytes)
+    (henc : Cbe.encodeEv st e = .ok (st, bs)) (hc : ∀ m s, e ≠ .comment m s)
+    (p : Bytes) (hp : p <+: bs) (hne : p ≠ []) (hlt : p.length < bs.length) :
+    ∃ part, Cbe.decodeOne p = .error (.eof, part) ∧ part <+: Cbe.renorm e :=
+  Cbe.simple_token_cut_fails st e hs bs henc hc p hp hne hlt
+
+/-- a cut inside an array sent in chunks fails with "input ended" -/
+theorem cut_inside_chunked_array_fails (t : ArrT) (hf : Cbe.frag t = true) (hd : Bytes) (hah : Cbe.arrayHeader t = .ok hd)
+    (cs : List Cbe.Chunk) (last : Cbe.Chunk) (hcs : ∀ c ∈ cs, Cbe.chunkOK (t.elemBits / 8) c)
+    (hl : Cbe.chunkOK (t.elemBits / 8) last) (p : Bytes) (hp : p <+: Cbe.groupBytes t hd cs last) (hne : p ≠ [])
+    (hlt : p.length < (Cbe.groupBytes t hd cs last).length) :
+    ∃ part, Cbe.decodeOne p = .error (.eof, part) ∧ part <+: Cbe.groupBack t cs last :=
+  Cbe.group_cut_fails t hf hd hah cs last hcs hl p hp hne hlt
+
+/-- non-vacuity: the two-byte prefix of the three-byte encoding of 1000 -/
+example : Cbe.simple (.posInt 1000) = true ∧ (Cbe.encodeFrom {} [.posInt 1000]).1 = [0x6a, 0xe8, 0x03] := by
+  refine ⟨by decide, by decide⟩
 
 end CE.Props.C09
